@@ -293,3 +293,54 @@ def r_C14d(root):
     ob("C14", "C14.d", M, W, "__init__ runs after the attribute methods were restored", oka)
     if not oka: out.append(Finding("C14", "C14.d", M, W, " ".join(ast.unparse(c).split()), "the postponed __init__ can run while the class's attribute methods are still the instrumented ones of this parser"))
     return inst, out
+
+def r_C14i(root):
+    """C14.i  restore is idempotent per parser: _restore_user_attr_methods is reached several times for one failing load
+       (inner handler, cleanup of models under construction, outer handler).  The flag that says 'this parser has
+       instrumented the classes' is therefore cleared before the nesting counters are decremented, on every path — a second
+       call finds it cleared and does nothing.  (Clearing it only when a counter reaches zero lets a nested failing load
+       decrement the counters of the enclosing load.)   Symmetrically _replace_user_attr_methods sets the flag on every path."""
+    import ast
+    from sa import sem
+    M = "textx/model.py"; out = []; inst = 0
+    t = load(root, M)
+    for q, val, what in (("get_model_parser.TextXModelParser._restore_user_attr_methods", False, "decrement"), ("get_model_parser.TextXModelParser._replace_user_attr_methods", True, "increment")):
+        fn = find(t, q); fi = sem.info(fn); cfg = fi.cfg; inst += 1
+        flag = [n for n in cfg.nodes if n.kind == "stmt" and isinstance(n.ast, ast.Assign) and any(isinstance(tg, ast.Attribute) and tg.attr == "_user_attr_methods_replaced" for tg in n.ast.targets) and isinstance(n.ast.value, ast.Constant) and n.ast.value.value is val]
+        cnt = [n for n in cfg.nodes if n.kind == "stmt" and isinstance(n.ast, (ast.AugAssign, ast.Assign)) and "_tx_instrumented" in ast.unparse(n.ast.targets[0] if isinstance(n.ast, ast.Assign) else n.ast.target)] + \
+              [n for n in cfg.nodes if n.ast is not None and n.kind in ("stmt",) and any(callee_name(c) in ("_replace_user_attr_methods_for_class",) for c in calls(n.ast))]
+        if not flag or not cnt: raise AnalysisError("%s: flag store / nesting counter update not found" % q)
+        ok = True; why = ""
+        if val is False:
+            for c in cnt:
+                if cfg.paths_avoiding(cfg.entry, c, lambda m: m in flag): ok = False; why = "a nesting counter is decremented on a path on which the parser's 'replaced' flag has not been cleared yet (%s)" % " ".join(ast.unparse(c.ast).split())[:60]
+            conds = [a for f_ in flag for a, pol in fi.atoms_at(f_.ast) if "_user_attr_methods_replaced" not in a]
+            if conds: ok = False; why = "the 'replaced' flag is cleared only under %s: a repeated restore for the same parser decrements the counters again" % conds[0][:80]
+        else:
+            if cfg.paths_avoiding(cfg.entry, cfg.exit, lambda m: m in flag):
+                ok = False; why = "the classes are instrumented on a path that does not record it in the parser's 'replaced' flag: the matching restore will do nothing"
+        ob("C14", "C14.i", M, q, "flag %s relative to the counter %s" % ("cleared before" if val is False else "set with", what), ok)
+        if not ok: out.append(Finding("C14", "C14.i", M, q, "self._user_attr_methods_replaced = %s" % val, why, witness="nested load of the same metamodel (scope provider loading an optional model) that fails after parsing and whose error is caught"))
+    return inst, out
+
+def r_C15h(root):
+    """C15.h  _abandon_user_objects discharges both obligations (restore the user classes, release the per-object records)
+       for every abandoned model that has a parser: the two calls depend on nothing but `hasattr(m, '_tx_parser')`.
+       In particular not on the parser's 'replaced' flag — _end_model_construction restores the classes *before* it runs the
+       constructors, so a constructor that raises leaves records behind although the flag is already cleared."""
+    import ast
+    from sa import sem
+    M = "textx/model.py"; out = []; inst = 0
+    fn = find_i(root, M, "_abandon_user_objects", depth=0); fi = sem.info(fn)
+    for nm in ("_restore_user_attr_methods", "_release_user_obj_attrs"):
+        cs = [c for c in calls(fn, own=True) if callee_name(c) == nm]
+        inst += 1
+        if not cs:
+            ob("C15", "C15.h", M, "_abandon_user_objects", nm + " called", False)
+            out.append(Finding("C15", "C15.h", M, "_abandon_user_objects", nm, "abandoned models are never discharged by %s" % nm)); continue
+        extra = [(a, pol) for a, pol in fi.atoms_at(cs[0]) if not (a.replace(" ", "").startswith("hasattr(") and a.replace(" ", "").endswith(",'_tx_parser')"))]
+        lp = next((a for a in ancestors(cs[0]) if isinstance(a, ast.For)), None)
+        ok = not extra and lp is not None
+        ob("C15", "C15.h", M, "_abandon_user_objects", "%s() for every abandoned model with a parser" % nm, ok)
+        if not ok: out.append(Finding("C15", "C15.h", M, "_abandon_user_objects", "%s() under %s%s" % (nm, "" if not extra or extra[0][1] else "not ", extra[0][0][:70] if extra else "no loop over the models"), "the cleanup of an abandoned model is skipped when %s: per-object records (which hold `parent`, i.e. the whole partial model) stay in user_class._tx_obj_attrs" % ("%s%s" % ("" if extra[0][1] else "not ", extra[0][0][:70]) if extra else "?"), witness="multi-file load; a user-class __init__ raises for an object of an imported file while further objects of that file are pending"))
+    return inst, out
